@@ -61,7 +61,45 @@ func c09One(ctx *core.Ctx, kind string, r *ref.Rendered, lc *layoutCase) {
 var c09Kinds = []string{"mixed-operators", "direct-not-first", "empty-restrictions", "wildcard-with-relation", "duplicate-relation",
 	"duplicate-condition", "duplicate-parameter", "extend-in-model", "extended-twice", "headers", "bad-container-type"}
 
+// c09Sweeps: every injection of the catalogue into a small tail (one type, one condition) that FOLLOWS a size-sweep model:
+// whatever the large part before it does to buffers, caches and indices, the violation behind it must still be reported.
+func c09Sweeps(ctx *core.Ctx) {
+	tail := gen.Tagged{Tag: "tail", M: &ref.Model{Schema: "1.1", Types: []ref.TypeDef{{Name: "zz_tail", Rels: []ref.Relation{
+		{Name: "a", Rw: ref.U(ref.T(), ref.I(ref.C("b"), ref.C("c"))), Restr: []ref.Restriction{{Type: "user"}, {Type: "user", Condition: "zz_cond"}}},
+		{Name: "b", Rw: ref.T(), Restr: []ref.Restriction{{Type: "user"}}},
+		{Name: "c", Rw: ref.T(), Restr: []ref.Restriction{{Type: "user", Wildcard: true}}},
+	}}}, Conds: []ref.Condition{{Name: "zz_cond", Params: []ref.Param{{Name: "x", Type: "int"}, {Name: "l", Type: "list", Generic: "string"}}, Expr: "x < 1"}}}}
+	injs := gen.Injections(tail)
+	k := 1 << 26
+	sizes := []int{13, 65, 100}
+	if ctx.Thorough() {
+		sizes = gen.SweepSizesSmall
+	}
+	for _, sw := range gen.SweepModelsDSL(sizes) {
+		for _, inj := range injs {
+			k++
+			if !ctx.Mine(k) {
+				continue
+			}
+			if ctx.Expired() {
+				ctx.Cap("wall-clock cap in the size sweeps")
+				return
+			}
+			if inj.Kind == "headers" || inj.Kind == "extend-in-model" {
+				continue // document-level injections do not depend on what precedes them
+			}
+			ctx.Eval(1)
+			im := *inj.M
+			im.Types = append(append([]ref.TypeDef{}, sw.M.Types...), inj.M.Types...)
+			im.Conds = append(append([]ref.Condition{}, sw.M.Conds...), inj.M.Conds...)
+			tag := sw.Tag + " followed by " + inj.Tag
+			forLayouts(ctx, tag, &im, 0, 0, func(r *ref.Rendered, lc *layoutCase) { c09One(ctx, inj.Kind, r, lc); ctx.Flag("c09:sweeps") })
+		}
+	}
+}
+
 func c09Run(ctx *core.Ctx) {
+	c09Sweeps(ctx)
 	k := 0
 	for _, base := range c09Bases(ctx.Thorough()) {
 		injs := gen.Injections(base)
@@ -87,7 +125,7 @@ func c09Run(ctx *core.Ctx) {
 func init() {
 	core.Register(&core.Check{
 		ID: "C09",
-		Rule: "valid base models (all DSL-conform rewrite shapes up to 3/4 leaves, restriction lists, condition and module models) x every single injection of the rule-violation catalogue " +
+		Rule: "every injection of the catalogue into a small tail that FOLLOWS a size-sweep model (sizes 13, 65, 100 quick; long names, long lines); valid base models (all DSL-conform rewrite shapes up to 3/4 leaves, restriction lists, condition and module models) x every single injection of the rule-violation catalogue " +
 			"(mixed operators at one level, direct assignment not first, [] , T:*#r, duplicate relation/condition/parameter, extend in a model file, type extended twice, both/neither header, container type without/with nested element) " +
 			"at every site (operand position, nesting depth, declaration position) x renderings (canonical + every uniform style; single layout deviations for every 6th injection quick / all thorough), " +
 			"through TransformDSLToProto and TransformModularDSLToProto. states = catalogue kinds seen, non-trivial = distinct injected texts",
@@ -97,6 +135,9 @@ func init() {
 		Technique: "bounded exhaustive fault injection: models x catalogue x sites x layouts",
 		Run:       c09Run,
 		Finish: func(r *core.Result) error {
+			if !r.Flags["c09:sweeps"] {
+				return fmt.Errorf("C09: size sweeps never exercised")
+			}
 			for _, k := range c09Kinds {
 				if !r.Flags["kind:"+k] {
 					return fmt.Errorf("C09: catalogue entry %q never exercised", k)
